@@ -290,6 +290,17 @@ fn check_rewrite(words: &[(u16, u16)], st: &mut Stats) {
                 match zipparse::parse(&bytes, &Opts::lenient()) {
                     Ok(p) if p.entries.len() == words.len() => {
                         for (i, e) in p.entries.iter().enumerate() {
+                            // (for new_append the old local header stays where it is; for the other routes it is re-written too:
+                            // both copies of the field must carry the words)
+                            if (e.l_date, e.l_time) != words[i] {
+                                st.viol(
+                                    format!("rewrite/local-header-changed/{route}"),
+                                    format!("timestamp words ({:#06x},{:#06x}) read from an archive: after {route} the entry's LOCAL header carries ({:#06x},{:#06x}) (central record: ({:#06x},{:#06x}))", words[i].0, words[i].1, e.l_date, e.l_time, e.date, e.time),
+                                    json!({"kind":"rewrite","words":[[words[i].0, words[i].1]]}),
+                                    ((words[i].0 as u64) << 16) | words[i].1 as u64,
+                                );
+                                break;
+                            }
                             if (e.date, e.time) != words[i] {
                                 st.viol(
                                     format!("rewrite/changed/{route}"),
